@@ -71,3 +71,20 @@ Theorem C02_series_parallel_is_regular : forall m n M, wf_mat m n M = true -> is
   SpModel.sp_greedy false m n M = true -> regular_bf m n M = true.
 Proof. exact SpTU.sp_binary_regular. Qed.
 Print Assumptions C02_series_parallel_is_regular.
+
+(* ---------- the judge accepts EXACTLY the records that satisfy its specification: besides soundness (above) also completeness,
+   i.e. a record of a correct answer is never rejected (JudgeComplete1.v) ---------- *)
+From Cmr Require JudgeComplete1.
+Theorem C02_judge_regular_accepts_exactly_the_specification :
+    forall (rec cfg : list Z) (m n : nat) (M : mat) (rc v : Z) (rest : list Z),
+    TuJudgeProofs.regular_input rec = Some (cfg, (m, n, M), rc, v, rest) ->
+    TuModel.judge_regular rec = 0%Z <-> JudgeComplete1.regular_spec cfg m n M rc v.
+Proof. exact JudgeComplete1.judge_regular_iff. Qed.
+Print Assumptions C02_judge_regular_accepts_exactly_the_specification.
+Theorem C02_judge_regular_cert_accepts_exactly_the_specification :
+    forall (rec cfg : list Z) (m n : nat) (M : mat) (rc v : Z) (tr : bool) (w : GraphModel.witness)
+    (rest : list Z),
+    RegCertModel.regular_cert_input rec = Some (cfg, (m, n, M), rc, v, tr, w, rest) ->
+    RegCertModel.judge_regular_cert rec = 0%Z <-> JudgeComplete1.regular_cert_spec cfg m n M rc v tr w.
+Proof. exact JudgeComplete1.judge_regular_cert_iff. Qed.
+Print Assumptions C02_judge_regular_cert_accepts_exactly_the_specification.
